@@ -492,6 +492,7 @@ class UDPDeviceManagementConnection(_DeviceManagementConnection):
     """
 
     __slots__ = (
+        "_acknowledge_wait",
         "_device_management",
         "local_ip",
         "local_port",
@@ -514,6 +515,7 @@ class UDPDeviceManagementConnection(_DeviceManagementConnection):
         self.local_port = local_port
         self.route_back = route_back
         self._device_management: DeviceManagement | None = None
+        self._acknowledge_wait: DeviceConfiguration | None = None
         super().__init__(
             gateway_ip=gateway_ip,
             gateway_port=gateway_port,
@@ -552,6 +554,9 @@ class UDPDeviceManagementConnection(_DeviceManagementConnection):
         if self._device_management is not None:
             self._device_management.stop()
             self._device_management = None
+        if self._acknowledge_wait is not None:
+            # Fail a request waiting for its acknowledgement instead of timing it out.
+            self._acknowledge_wait.abort()
 
     async def _send_request(self, cemi: CEMIFrame) -> None:
         """Send a request, repeating it while it stays unacknowledged."""
@@ -573,6 +578,7 @@ class UDPDeviceManagementConnection(_DeviceManagementConnection):
             )
             error_code: ErrorCode | None = None
             acknowledged = True
+            self._acknowledge_wait = device_configuration
             try:
                 await device_configuration.request()
             except RequestResponseError as err:
@@ -584,6 +590,8 @@ class UDPDeviceManagementConnection(_DeviceManagementConnection):
                     and self._pending.done()
                     and not self._pending.cancelled()
                 )
+            finally:
+                self._acknowledge_wait = None
             if acknowledged:
                 self.sequence_number = self.sequence_number + 1 & 0xFF
                 return
